@@ -333,7 +333,7 @@ theorem Rebuilds_mono {ρ s t : Env} (h : Env.le s t) : ∀ (p : Pat) (v : V), R
     rintro ⟨ms, ws, hv, hmn, hn, hsub, he, hr, hc⟩
     exact ⟨ms, ws, hv, hmn, hn, hsub, RElts_mono h elts ws he, fun t ht => restHolds_mono h (hr t ht), hc⟩
 theorem RItems_mono {ρ s t : Env} (h : Env.le s t) :
-    ∀ (items : List (Pat × Option Lit)) (xs : List V), RItems ρ s items xs → RItems ρ t items xs
+    ∀ (items : List (Pat × Option FExpr)) (xs : List V), RItems ρ s items xs → RItems ρ t items xs
   | [], xs => by simp only [RItems]; exact id
   | (p, fb) :: r, xs => by
     simp only [RItems]
@@ -348,7 +348,7 @@ theorem RItems_mono {ρ s t : Env} (h : Env.le s t) :
       · exact Or.inl ⟨x, tail, hx, Rebuilds_mono h p x hp', RItems_mono h r tail hi⟩
       · exact Or.inr ⟨d, hd, hx, Rebuilds_mono h p _ hp', RItems_mono h r [] hi⟩
 theorem RAttrs_mono {ρ s t : Env} (h : Env.le s t) :
-    ∀ (attrs : List (String × Pat × Option Lit)) (kvs : List (String × V)), RAttrs ρ s attrs kvs → RAttrs ρ t attrs kvs
+    ∀ (attrs : List (String × Pat × Option FExpr)) (kvs : List (String × V)), RAttrs ρ s attrs kvs → RAttrs ρ t attrs kvs
   | [], kvs => by simp only [RAttrs]; exact id
   | (n, p, fb) :: r, kvs => by
     simp only [RAttrs]
@@ -362,7 +362,7 @@ theorem RAttrs_mono {ρ s t : Env} (h : Env.le s t) :
       obtain ⟨w, hw, hr⟩ := h1
       exact ⟨w, hw, Rebuilds_mono h p w hr⟩
 theorem REnts_mono {ρ s t : Env} (h : Env.le s t) :
-    ∀ (ents : List (Lit × Pat × Option Lit)) (kvs : List (V × V)), REnts ρ s ents kvs → REnts ρ t ents kvs
+    ∀ (ents : List (Lit × Pat × Option FExpr)) (kvs : List (V × V)), REnts ρ s ents kvs → REnts ρ t ents kvs
   | [], kvs => by simp only [REnts]; exact id
   | (k, p, fb) :: r, kvs => by
     simp only [REnts]
@@ -483,10 +483,10 @@ theorem bindRests_sound {w : V} : ∀ (ts : List String) (acc σ : Env), bindRes
             · exact Or.inr ⟨h, hb'⟩
 
 /-! names bound by the parts of a container other than `...` -/
-def namesAttrsNR : List (String × Pat × Option Lit) → List String
+def namesAttrsNR : List (String × Pat × Option FExpr) → List String
   | [] => []
   | (_, p, _) :: r => (match restName p with | some _ => [] | none => names p) ++ namesAttrsNR r
-def namesEntsNR : List (Lit × Pat × Option Lit) → List String
+def namesEntsNR : List (Lit × Pat × Option FExpr) → List String
   | [] => []
   | (_, p, _) :: r => (match restName p with | some _ => [] | none => names p) ++ namesEntsNR r
 def namesEltsNR : List Pat → List String
@@ -515,7 +515,7 @@ theorem names_split_aux {a nr rr b : Prop} : ((a ∧ b) ∨ (nr ∨ (rr ∧ b)))
     · exact Or.inl ⟨h, hb⟩
     · exact Or.inr (Or.inr ⟨h, hb⟩)
 
-theorem mem_namesAttrs (x : String) : ∀ attrs : List (String × Pat × Option Lit),
+theorem mem_namesAttrs (x : String) : ∀ attrs : List (String × Pat × Option FExpr),
     x ∈ namesAttrs attrs ↔ (x ∈ namesAttrsNR attrs ∨ (x ∈ restsAttrs attrs ∧ bindable x = true))
   | [] => by simp [namesAttrs, namesAttrsNR, restsAttrs]
   | (n, p, fb) :: r => by
@@ -527,7 +527,7 @@ theorem mem_namesAttrs (x : String) : ∀ attrs : List (String × Pat × Option 
       simp only [mem_names_rest, List.mem_singleton, List.not_mem_nil, false_or]
       exact names_split_aux
 
-theorem mem_namesEnts (x : String) : ∀ ents : List (Lit × Pat × Option Lit),
+theorem mem_namesEnts (x : String) : ∀ ents : List (Lit × Pat × Option FExpr),
     x ∈ namesEnts ents ↔ (x ∈ namesEntsNR ents ∨ (x ∈ restsEnts ents ∧ bindable x = true))
   | [] => by simp [namesEnts, namesEntsNR, restsEnts]
   | (n, p, fb) :: r => by
@@ -806,7 +806,7 @@ theorem bind_sound (ρ : Env) : ∀ (p : Pat) (v : V) (s : Env), Spec.bind ρ p 
                 simp only [names, mem_namesElts y elts]
                 simp
         · intro e; cases e
-theorem bindItems_sound (ρ : Env) : ∀ (items : List (Pat × Option Lit)) (acc : Env) (xs : List V) (σ : Env),
+theorem bindItems_sound (ρ : Env) : ∀ (items : List (Pat × Option FExpr)) (acc : Env) (xs : List V) (σ : Env),
     Spec.bindItems ρ acc items xs = some σ →
     RItems ρ σ items xs ∧ Ext acc σ (fun y => y ∈ namesItems items)
   | [], acc, xs, σ => by
@@ -862,11 +862,11 @@ theorem bindItems_sound (ρ : Env) : ∀ (items : List (Pat × Option Lit)) (acc
               rw [hstep.2.2 y]
               simp only [namesItems, List.mem_append]
       | nil =>
-        cases fb with
+        cases hfv : fbVal ρ fb with
         | none => simp
         | some d =>
           simp only
-          cases hb : Spec.bind ρ p d.den with
+          cases hb : Spec.bind ρ p d with
           | none => simp
           | some s =>
             simp only
@@ -876,14 +876,14 @@ theorem bindItems_sound (ρ : Env) : ∀ (items : List (Pat × Option Lit)) (acc
               simp only
               intro h
               obtain ⟨h2, h1, h3⟩ := bindItems_sound ρ r acc' [] σ h
-              have hstep := step_sound (N := fun y => y ∈ namesItems r) (bind_sound ρ p d.den s hb) hm h1 h3
+              have hstep := step_sound (N := fun y => y ∈ namesItems r) (bind_sound ρ p d s hb) hm h1 h3
               refine ⟨?_, hstep.1, ?_⟩
               · simp only [RItems, hp]
-                exact Or.inr ⟨d, rfl, trivial, hstep.2.1, h2⟩
+                exact Or.inr ⟨d, hfv, trivial, hstep.2.1, h2⟩
               · intro y
                 rw [hstep.2.2 y]
                 simp only [namesItems, List.mem_append]
-theorem bindAttrs_sound (ρ : Env) : ∀ (attrs : List (String × Pat × Option Lit)) (acc : Env)
+theorem bindAttrs_sound (ρ : Env) : ∀ (attrs : List (String × Pat × Option FExpr)) (acc : Env)
     (kvs : List (String × V)) (σ : Env), Spec.bindAttrs ρ acc attrs kvs = some σ →
     RAttrs ρ σ attrs kvs ∧ Ext acc σ (fun y => y ∈ namesAttrsNR attrs)
   | [], acc, kvs, σ => by
@@ -903,7 +903,7 @@ theorem bindAttrs_sound (ρ : Env) : ∀ (attrs : List (String × Pat × Option 
     | none =>
       simp only
       -- the value handed to the component: the attribute, or the fallback when it is absent
-      cases hw : compValue (kvs.lookup n) fb with
+      cases hw : compValue ρ (kvs.lookup n) fb with
       | none => simp
       | some w =>
         simp only
@@ -924,7 +924,7 @@ theorem bindAttrs_sound (ρ : Env) : ∀ (attrs : List (String × Pat × Option 
             · intro y
               rw [hstep.2.2 y]
               simp only [namesAttrsNR, hp, List.mem_append]
-theorem bindEnts_sound (ρ : Env) : ∀ (ents : List (Lit × Pat × Option Lit)) (acc : Env)
+theorem bindEnts_sound (ρ : Env) : ∀ (ents : List (Lit × Pat × Option FExpr)) (acc : Env)
     (kvs : List (V × V)) (σ : Env), Spec.bindEnts ρ acc ents kvs = some σ →
     REnts ρ σ ents kvs ∧ Ext acc σ (fun y => y ∈ namesEntsNR ents)
   | [], acc, kvs, σ => by
@@ -943,7 +943,7 @@ theorem bindEnts_sound (ρ : Env) : ∀ (ents : List (Lit × Pat × Option Lit))
       · intro y; rw [h3 y]; simp [namesEntsNR, hp]
     | none =>
       simp only
-      cases hw : compValue (kvs.lookup k.den) fb with
+      cases hw : compValue ρ (kvs.lookup k.den) fb with
       | none => simp
       | some w =>
         simp only
@@ -1063,7 +1063,7 @@ theorem bindRests_complete {σ : Env} {w : V} : ∀ (ts : List String) (acc : En
     exact ⟨σ', by simp only [bindRests, hm]; exact h1, h2⟩
 
 /-- items without `...` and without fallbacks consume exactly one item each -/
-theorem RItems_plain_length {ρ σ : Env} : ∀ (r : List (Pat × Option Lit)) (xs : List V),
+theorem RItems_plain_length {ρ σ : Env} : ∀ (r : List (Pat × Option FExpr)) (xs : List V),
     r.all (fun q => !q.1.isRest && q.2.isNone) = true → RItems ρ σ r xs → xs.length = r.length
   | [], xs, _, h => by simp only [RItems] at h; simp [h]
   | (p, fb) :: r, xs, hall, h => by
@@ -1077,7 +1077,7 @@ theorem RItems_plain_length {ρ σ : Env} : ∀ (r : List (Pat × Option Lit)) (
     simp only [RItems, hrn] at h
     rcases h with ⟨x, tail, rfl, _, hi⟩ | ⟨d, hd, _, _, _⟩
     · simp [RItems_plain_length r tail hr hi]
-    · rw [hfb] at hd; cases hd
+    · rw [hfb] at hd; simp [fbVal] at hd
 
 theorem restName_none_of_not_isRest {p : Pat} (h : p.isRest = false) : restName p = none := by
   unfold Pat.isRest at h
@@ -1146,7 +1146,7 @@ theorem bindElts_nofree {ρ σ : Env} : ∀ (elts : List Pat) (ws : List V),
       refine ⟨by simp only [fixedValues, hk, hfv, h1, Option.map_some], fun acc left => ?_⟩
       simp only [Spec.bindElts, hk]; exact h2 acc left
 
-theorem plain_shape : ∀ (r : List (Pat × Option Lit)),
+theorem plain_shape : ∀ (r : List (Pat × Option FExpr)),
     r.all (fun q => !q.1.isRest && q.2.isNone) = true → detItemsShape r = true
   | [], _ => rfl
   | (p, fb) :: r, h => by
@@ -1268,7 +1268,7 @@ theorem bind_complete (ρ σ : Env) : ∀ (p : Pat) (v : V), det p = true → Re
           simpa using hsub w' ((List.Perm.mem_iff hperm).2 (List.mem_cons_of_mem _ hw')))⟩
       simp only [Spec.bind, hview, hf, if_pos hok, hleft fws w hperm, hloop, if_pos hrests]
       exact ⟨σ', by simp, hle⟩
-theorem bindItems_complete (ρ σ : Env) : ∀ (items : List (Pat × Option Lit)) (acc : Env) (xs : List V),
+theorem bindItems_complete (ρ σ : Env) : ∀ (items : List (Pat × Option FExpr)) (acc : Env) (xs : List V),
     detItemsShape items = true → detItems items = true → RItems ρ σ items xs → Env.le acc σ →
     ∃ σ', Spec.bindItems ρ acc items xs = some σ' ∧ Env.le σ' σ
   | [], acc, xs, _, _, h, hacc => by
@@ -1297,16 +1297,16 @@ theorem bindItems_complete (ρ σ : Env) : ∀ (items : List (Pat × Option Lit)
         | true => obtain ⟨t, ht⟩ := (isRest_iff p).1 hh; rw [hp] at ht; cases ht
       simp only [detItemsShape, hisr] at hsh
       simp only [RItems, hp] at h
-      rcases h with ⟨x, tail, rfl, hpx, hi⟩ | ⟨d, rfl, rfl, hpd, hi⟩
+      rcases h with ⟨x, tail, rfl, hpx, hi⟩ | ⟨d, hfv, rfl, hpd, hi⟩
       · obtain ⟨s, hb, hs⟩ := bind_complete ρ σ p x hdi.1 hpx
         obtain ⟨acc', hm, hle⟩ := mu_complete hacc hs
         obtain ⟨σ', h1, h2⟩ := bindItems_complete ρ σ r acc' tail (by simpa using hsh) hdi.2 hi hle
         exact ⟨σ', by simp only [Spec.bindItems, hp, hb, hm]; exact h1, h2⟩
-      · obtain ⟨s, hb, hs⟩ := bind_complete ρ σ p d.den hdi.1 hpd
+      · obtain ⟨s, hb, hs⟩ := bind_complete ρ σ p d hdi.1 hpd
         obtain ⟨acc', hm, hle⟩ := mu_complete hacc hs
         obtain ⟨σ', h1, h2⟩ := bindItems_complete ρ σ r acc' [] (by simpa using hsh) hdi.2 hi hle
-        exact ⟨σ', by simp only [Spec.bindItems, hp, hb, hm]; exact h1, h2⟩
-theorem bindAttrs_complete (ρ σ : Env) : ∀ (attrs : List (String × Pat × Option Lit)) (acc : Env)
+        exact ⟨σ', by simp only [Spec.bindItems, hp, hfv, hb, hm]; exact h1, h2⟩
+theorem bindAttrs_complete (ρ σ : Env) : ∀ (attrs : List (String × Pat × Option FExpr)) (acc : Env)
     (kvs : List (String × V)), detAttrs attrs = true → RAttrs ρ σ attrs kvs → Env.le acc σ →
     ∃ σ', Spec.bindAttrs ρ acc attrs kvs = some σ' ∧ Env.le σ' σ
   | [], acc, kvs, _, _, hacc => ⟨acc, by simp [Spec.bindAttrs], hacc⟩
@@ -1324,7 +1324,7 @@ theorem bindAttrs_complete (ρ σ : Env) : ∀ (attrs : List (String × Pat × O
       obtain ⟨acc', hm, hle⟩ := mu_complete hacc hs
       obtain ⟨σ', h1, h2⟩ := bindAttrs_complete ρ σ r acc' kvs hd.2 hr hle
       exact ⟨σ', by simp only [Spec.bindAttrs, hp, hw, hb, hm]; exact h1, h2⟩
-theorem bindEnts_complete (ρ σ : Env) : ∀ (ents : List (Lit × Pat × Option Lit)) (acc : Env)
+theorem bindEnts_complete (ρ σ : Env) : ∀ (ents : List (Lit × Pat × Option FExpr)) (acc : Env)
     (kvs : List (V × V)), detEnts ents = true → REnts ρ σ ents kvs → Env.le acc σ →
     ∃ σ', Spec.bindEnts ρ acc ents kvs = some σ' ∧ Env.le σ' σ
   | [], acc, kvs, _, _, hacc => ⟨acc, by simp [Spec.bindEnts], hacc⟩
